@@ -216,6 +216,9 @@ func (s *Solver) check() Result {
 	}
 	s.stats.Queries++
 	s.stats.Seconds["z3"] += time.Since(t0).Seconds()
+	if d := os.Getenv("GOSYM_SLOWDIR"); d != "" && time.Since(t0) > 2*time.Second {
+		os.WriteFile(fmt.Sprintf("%s/slow-%d-%s.smt2", d, s.stats.Queries, r), []byte(s.script(nil)), 0o644)
+	}
 	if r == resUnknown {
 		// portfolio: cvc5 with bv-as-int, then z3-new
 		s.stats.FallbackQueries++
